@@ -63,7 +63,8 @@ def kindStr : Kind → String
 def incNodeOf (j : Json) : Except String IncNode := do
   pure { name := ← strOf j "name", ctype := ← strOf j "ctype",
          kind := ← kindOf (← (← j.getObjVal? "kind").getStr?),
-         gtypeName := ← optStrOf j "gtype", parent := ← nsRefPairOf j "parent" }
+         gtypeName := ← optStrOf j "gtype", parent := ← nsRefPairOf j "parent",
+         cSymbolPrefix := ← optStrOf j "sym_prefix" }
 
 def envOf (j : Json) : Except String Env := do
   let cfg ← cfgOf j
